@@ -224,6 +224,62 @@ def monitor_reset(check):
             check.ok("MON-RESET", g.qualname, "every entry of the monitor dictionary loses its previous 'output' before the run (guarded at most by the presence of 'output')", "%s:%d" % (g.module.relpath, ln))
 
 
+def monitor_store(check):
+    """MON-STORE: monitor.append(it, time, value) keeps EVERY record it is given: each of its three parameters is
+    appended to a list of the monitor on every path -- no condition, no early return (a guard against "duplicates"
+    silently drops the records of a restart that starts from an earlier iteration)"""
+    proj = check.proj
+    if not proj.has_cls("monitors.monitor"):
+        raise AnalysisError("monitors.monitor not found")
+    c = proj.cls("monitors.monitor")
+    f = proj.resolve(c, "append")
+    if f is None:
+        raise AnalysisError("monitors.monitor.append not found")
+    params = f.params[1:4]
+
+    def is_store(st):
+        return isinstance(st, ast.Expr) and isinstance(st.value, ast.Call) and isinstance(st.value.func, ast.Attribute) and st.value.func.attr == "append" \
+            and len(st.value.args) == 1 and isinstance(st.value.args[0], ast.Name) and st.value.args[0].id in params and not st.value.keywords
+
+    def has_store(stmts):
+        return any(is_store(n) for st in stmts for n in ast.walk(st) if isinstance(n, ast.Expr))
+
+    def block(stmts, stored):
+        """the parameters stored on EVERY path through the statements that reaches their end; (line, kind) of a silent exit taken
+        before all of them are stored"""
+        stored = set(stored)
+        for st in stmts:
+            if is_store(st):
+                stored.add(st.value.args[0].id)
+            elif isinstance(st, ast.If):
+                s1, e1 = block(st.body, stored)
+                s2, e2 = block(st.orelse, stored)
+                if e1 or e2:
+                    return stored, e1 or e2
+                stored = (s1 if s1 is not None else s2) if (s1 is None or s2 is None) else (s1 & s2)
+                if stored is None:
+                    return None, None
+            elif isinstance(st, ast.Return):
+                if len(stored) < len(params):
+                    return stored, (st.lineno, "return")
+                return None, None
+            elif isinstance(st, ast.Raise):
+                return None, None           # a loud refusal, not a dropped record
+            elif isinstance(st, (ast.For, ast.While, ast.Try, ast.With)) and (has_store([st]) or any(isinstance(n, ast.Return) for n in ast.walk(st))):
+                raise AnalysisError("monitor.append stores or returns inside a `%s` statement at line %d: not decided" % (type(st).__name__.lower(), st.lineno))
+            elif any(isinstance(n, ast.Name) and isinstance(n.ctx, ast.Store) and n.id in params for n in ast.walk(st)):
+                raise AnalysisError("monitor.append rebinds a parameter at line %d: not decided" % st.lineno)
+        return stored, None
+
+    stored, silent = block(f.node.body, set())
+    if silent:
+        check.violation("MON-STORE", f.qualname, "a path through append() leaves by `%s` (line %d) before the record is stored: some records handed to the monitor are silently not kept (a guard on the iteration number drops every record of a restart from an earlier iteration than the last one recorded)" % (silent[1], silent[0]), "%s:%d" % (f.module.relpath, silent[0]), key="conditional-store")
+    elif stored is not None and len(params) == 3 and stored == set(params):
+        check.ok("MON-STORE", f.qualname, "the iteration, the time and the value are appended on every path that returns", f.loc())
+    else:
+        check.violation("MON-STORE", f.qualname, "append() does not store all of %s on every path (stored on all paths: %s)" % (params, sorted(stored or ())), f.loc(), key="partial-store")
+
+
 def monitor_dispatch(check):
     """MON-DISPATCH: _parse_monitors hands EVERY entry of the monitor dictionary to its function at every
     iteration -- the loop over the dictionary has no exit that depends on one entry (break / return): a
@@ -272,6 +328,7 @@ def monitor_dispatch(check):
 def monitors(check):
     monitor_reset(check)
     monitor_dispatch(check)
+    check.guarded("MON-STORE", "monitors.monitor.append", lambda: monitor_store(check))
     proj = check.proj
     tm = proj.cls("integration.timemodel")
     init = proj.resolve(tm, "__init__")
